@@ -25,7 +25,7 @@ func (*prop) ID() string    { return "C07" }
 func (*prop) Level() string { return "exploration" }
 func (*prop) Rule() string {
 	return "seeded module layouts (package in the module root or not, nested package, an unselected package with its own outputs, a testdata directory, non-Go files, look-alikes <base>X.go / <base> / <base>_test.go / <base>.notes.txt, a stale <base>.old.go that is part of the package, outputs of generators that are no longer run, pre-existing / missing / garbage gengo.sum) x All on/off x OutputFileBaseName in {zz_generated, zz, gen.out} " +
-		"x per (package, generator) behaviour in {renders, renders only from a Defer callback, renders nothing, ErrSkip for all, ErrIgnore+nothing, ErrIgnore+something, alias-only, alias ErrIgnore+nothing} x previous output present/absent; three generators per run (one implements GenerateAliasType). The real Execute runs in the worker; the oracle compares sha256+mode snapshots of every path under the module before and after: " +
+		"x per (package, generator) behaviour in {renders, renders only from a Defer callback, renders nothing, ErrSkip for all, ErrIgnore+nothing, ErrIgnore for one type and ErrSkip / nil for the others (either order), ErrIgnore+something, alias-only, alias ErrIgnore+nothing} x previous output present/absent; three generators per run (one implements GenerateAliasType). The real Execute runs in the worker; the oracle compares sha256+mode snapshots of every path under the module before and after: " +
 		"changed/created/deleted paths must lie in {<pkgdir>/<base>.* of executed packages} + {<modroot>/gengo.sum iff All}; a cache-skipped or unselected package is entirely unchanged; in an executed package each generator's file exists afterwards iff it rendered something (and then carries that generator's marker), except ErrIgnore+nothing => bytes exactly as before; stale <base>.*.go members are gone. " +
 		"Thorough tier additionally runs configurations in a child process under strace -f and requires that no open-for-write / creat / unlink / rename / truncate / mkdir under the module root falls outside the allow-set (catches write-then-restore). " +
 		"Non-trivial = a configuration with at least one previous output or stale file and at least one non-rendering behaviour; distinct by hash of (base, All, root, behaviour matrix, previous-output matrix)."
@@ -65,7 +65,7 @@ func (*prop) Cases(seed int64, tier string) []core.Case {
 	return cs
 }
 
-var modes = []string{"render", "nothing", "skip", "ignore-nothing", "ignore-something", "alias-only", "alias-ignore-nothing", "render", "defer-only"}
+var modes = []string{"render", "nothing", "skip", "ignore-nothing", "ignore-something", "alias-only", "alias-ignore-nothing", "render", "defer-only", "ignore-then-skip", "skip-then-ignore", "ignore-then-nil"}
 var bases = []string{"zz_generated", "zz", "gen.out"}
 
 const mod = "example.com/c07"
